@@ -227,4 +227,7 @@ def run(chk, tier):
     txt = json.dumps(hb["body"])
     ok = "general_purpose::STANDARD" in txt and "to_bytes" in txt and "serialize_str" in txt and "URL_SAFE" not in txt and "NO_PAD" not in txt
     chk.expect(ok, "number-binary-forms", "InlineBinary", "base64-standard", "STANDARD.encode(self.0.to_bytes()) as a string", ok, loc=C.fn_loc(hb))
+    # a file object's JSON lists the file meta group in the order into_element_iter yields it
+    from . import shared
+    shared.meta_order_ascending(chk, fx, "meta-keys-ascending")
     chk.undecided.append("the JSON text of executed output; byte order of to_bytes on big-endian hosts; serde_json's number rendering")
